@@ -674,7 +674,11 @@ pub fn c10builtins(repo: &Path) -> Result<String, String> {
             let txt = st.to_token_stream().to_string().replace(' ', "");
             if txt.starts_with("#[cfg(feature=\"verif-hooks\")]") { continue; }
             if let Stmt::Local(_) = st {
-                if txt.ends_with("=this.0.lock().unwrap();") { continue; }
+                // `let raw = this.0.lock().unwrap();`, or through a guard helper: `let raw = this.raw();`
+                if let Some((_, rhs)) = txt.split_once("=this.") {
+                    let helper_call = rhs.strip_suffix("();").is_some_and(|n| !n.is_empty() && n.chars().all(|c| c.is_alphanumeric() || c == '_'));
+                    if rhs == "0.lock().unwrap();" || helper_call { continue; }
+                }
             }
             if let Stmt::Expr(Expr::Match(m), _) = st { scrut = Some((*m.expr).clone()); }
             break;
